@@ -114,6 +114,17 @@ func c15recExec(res *verifrt.Result, c c15recCase) {
 				viol("C15 resource: a Set with an advertisement of 64 communities was accepted", "")
 				return
 			}
+		case "openbad":
+			// a session request that must be refused (a password AND a secret reference): it leaves no trace - every later
+			// operation on the other sessions works as before
+			bad := cat[c15recSessions[op.Session]].Params
+			bad.PeerAddress, bad.SessionName = "10.1.1.99", "refused"
+			bad.Password = "both"
+			bad.PasswordRef.Name, bad.PasswordRef.Namespace = "bgp-secret", "metallb-system"
+			if _, err := sm.NewSession(log.NewNopLogger(), bad); err == nil {
+				viol("C15 resource: a session with a password and a secret reference was accepted", "")
+				return
+			}
 		case "close":
 			if err := open[op.Session].Close(); err != nil {
 				viol("C15 resource: Close failed", err.Error())
@@ -270,6 +281,9 @@ func TestVerif_C15rec(t *testing.T) {
 				}
 			}
 			next(c15recOp{Kind: "close", Session: si}, "close "+name, o2)
+		}
+		if len(ops) > 0 && ops[len(ops)-1].Kind != "openbad" {
+			next(c15recOp{Kind: "openbad", Session: 0}, "open a session with password and secret reference (refused)", open)
 		}
 		if sinceRec && len(ops) > 0 {
 			rec(append(append([]c15recOp{}, ops...), c15recOp{Kind: "reconcile"}), append(append([]string{}, readable...), "reconcile"), open, false)
